@@ -112,3 +112,58 @@ func VerifH_C13_InspectVsScanV1() {
 	}
 	vCover("both-reject", ierr != nil && !scan.ok)
 }
+
+// VerifH_C13_InspectVsScanV2: the same differential check on a CARv2 container (data padding, an
+// index of either codec or none, or an unreadable index codec): Inspect(true) succeeds iff the
+// verifying scan of the payload succeeds and - when the header claims an index - its codec is
+// readable; version, header and index codec are reported as found.
+func VerifH_C13_InspectVsScanV2() {
+	N := 7
+	if vTier() == 1 {
+		N = 10
+	}
+	root := vCidID("root")
+	hdr := vHeaderV1(root)
+	in := vBytes("in", N)
+	n := vInt("n")
+	vAssume(n >= 1 && n <= N)
+	payload := vCat(hdr, in[:n])
+	pad := 3 * vChoose("pad", 2)
+	var idx []byte
+	idxOff := uint64(0)
+	idxKind := vChoose("indexKind", 4)
+	switch idxKind {
+	case 1:
+		idx = []byte{0x80, 0x08, 0, 0, 0, 0} // car-index-sorted, no buckets
+	case 2:
+		idx = []byte{0x81, 0x08, 0, 0, 0, 0} // car-multihash-index-sorted, no buckets
+	case 3:
+		idx = []byte{0x80} // truncated codec varint
+	}
+	if idxKind != 0 {
+		idxOff = uint64(51 + pad + len(payload))
+	}
+	file := vWrapV2(payload, pad, idxOff, idx)
+	opts := []Option{MaxAllowedSectionSize(uint64(N))}
+	scan, _ := vScanAll(&vStream{data: file}, N, opts...)
+	rd, err := NewReader(&vReaderAt{data: file}, opts...)
+	vAssert("reader-opens", err == nil)
+	st, ierr := rd.Inspect(true)
+	wantOK := scan.ok && idxKind != 3
+	vAssert("inspect-ok-iff-scan-ok-and-codec-readable", (ierr == nil) == wantOK)
+	if ierr == nil {
+		vAssert("version", st.Version == 2)
+		vAssert("header", st.Header.DataOffset == uint64(51+pad) && st.Header.DataSize == uint64(len(payload)) && st.Header.IndexOffset == idxOff)
+		vAssert("block-count", st.BlockCount == scan.count)
+		wantCodec := uint64(0)
+		if idxKind == 1 {
+			wantCodec = 0x0400
+		} else if idxKind == 2 {
+			wantCodec = 0x0401
+		}
+		vAssert("index-codec", uint64(st.IndexCodec) == wantCodec)
+		vCover("v2-agree-with-block", scan.count > 0)
+		vCover("v2-indexed", idxKind == 2)
+	}
+	vCover("v2-unreadable-codec-rejected", idxKind == 3 && ierr != nil && scan.ok)
+}
